@@ -286,3 +286,79 @@ PROPERTY = {
     "assumptions": ["cirq's asymmetric_depolarize / depolarize implement their documented channels (validated numerically in C19.O6)", "floats as reals"],
     "trusted_base": ["tverif AST interpreter", "tverif.fakes", "z3", "cirq"],
 }
+
+
+# P: noise insertion in the translation loop of a circuit of ANY length --------------------------------------------------------
+
+from tverif.interp import GhostIterable
+
+
+class NoisyGenericGate(GhostIterable):
+    def __init__(self, h, gate, n, spec, rates, noisy):
+        self.h, self.gate, self.n, self.spec, self.rates, self.noisy = h, gate, n, spec, rates, noisy
+        self.before = snapshot(gate.__dict__)
+        self.iterations = 0
+
+    def element(self):
+        self.iterations += 1
+        return self.gate
+
+    def havoc(self, interp, env):
+        t = env.lookup("target_circuit")
+        t.ops[:] = [fakes.COp(fakes.CGateT("<opaque translated prefix>"), [])]
+
+    def step(self, interp, env, broke):
+        h, g = self.h, self.gate
+        px, py, pz, p = self.rates
+        t = env.lookup("target_circuit")
+        h.check("source gate unchanged", snapshot(g.__dict__) == self.before)
+        h.check("translated prefix untouched", t.ops[0].gate.name == "<opaque translated prefix>")
+        new = t.ops[1:]
+        chans = [o for o in new if o.gate.name in ("asymmetric_depolarize", "depolarize")]
+        first_chan = next((i for i, o in enumerate(new) if o.gate.name in ("asymmetric_depolarize", "depolarize")), len(new))
+        h.check("channels come after the gate's own operation(s)", first_chan >= 1 and all(o.gate.name in ("asymmetric_depolarize", "depolarize") for o in new[first_chan:]))
+        qs = list(g.target) + list(g.control or [])
+        exp = []
+        if self.noisy:
+            for kind in self.spec:
+                if kind == "pauli":
+                    exp += [("asymmetric_depolarize", [q]) for q in qs]
+                else:
+                    exp += [("depolarize", qs)]
+        h.check("exactly the specified channels on exactly the gate's qubits, in order", [(o.gate.name, o.qubits) for o in chans] == exp, detail=str([(o.gate.name, o.qubits) for o in chans]))
+        for o in chans:
+            if o.gate.name == "depolarize":
+                k = len(qs)
+                h.check_close("depolarising parameter p (4^k-1)/4^k", o.gate.params[0], p * Fraction(4 ** k - 1, 4 ** k))
+            else:
+                h.check_close("px", o.gate.params[0], px)
+                h.check_close("py", o.gate.params[1], py)
+                h.check_close("pz", o.gate.params[2], pz)
+
+
+@contract("C19", "P3.noise_insertion.loop_step.any_length", targets=[(TC, "translate_c_to_cirq")], level="P",
+          structures=lambda tier: [{"gate": gi, "spec": sp, "noisy": nz} for gi in range(len(GATES)) for sp in (["pauli"], ["depol"], ["pauli", "depol"], ["depol", "pauli"]) for nz in (True, False)])
+def p3(h, st):
+    """for a source circuit of ANY length and an arbitrary translated prefix: one generic iteration appends, after the gate's own operation, exactly the channels the noise
+    model attaches to that gate's name (none when the name is not noisy) on exactly its targets then controls, with the specified rates, for every rate value"""
+    if not h.symbolic:
+        h.check("native: covered by O3 / O6", True)
+        h.done()
+        return
+    h.I.module_override["cirq"] = fakes.FakeCirq
+    from tangelo.linq import Circuit
+    from tangelo.linq.noisy_simulation import NoiseModel
+    px, py, pz, p = h.real("px"), h.real("py"), h.real("pz"), h.real("p")
+    t = h.real("t", angle_denom=2)
+    name, tg, ct = GATES[st["gate"]]
+    g = mk_gate(name, tg, ct, t if name in PARAM else "")
+    nm = NoiseModel()
+    noisy_name = name if st["noisy"] else ("H" if name != "H" else "X")
+    for kind in st["spec"]:
+        nm._quantum_errors.setdefault(noisy_name, []).append(("pauli", [px, py, pz]) if kind == "pauli" else ("depol", p))
+    c = Circuit.__new__(Circuit)
+    it = NoisyGenericGate(h, g, 3, st["spec"], (px, py, pz, p), st["noisy"])
+    c.__dict__ = {"_gates": it, "_qubit_indices": set(range(3)), "_qubits_simulated": 3, "name": "any"}
+    h.call(TC, "translate_c_to_cirq", c, nm)
+    h.check("the loop body was entered once for the generic gate", it.iterations == 1)
+    h.done()
